@@ -84,6 +84,18 @@ def run_world(facts, rep, w, floors):
                    ("mutating call %s receives a path that is not provably from layers[0]: %s" % (
                        site.short, ", ".join(fmt_origin(o) for o in bad))) if bad else "origin layers[0]",
                    site.line)
+    # positive control on the real code: the provenance analysis must be able to say "any layer" — the overlay's
+    # resolver result (used as receiver of observing calls and as copy-up source) is such a path
+    n_any = 0
+    for b in obs:
+        for cb in inter.code_bodies(b):
+            tr = get_tracer(facts, cb)
+            for s in inter.sites(cb):
+                if s.self_ty and s.self_ty.endswith("VfsPath") and s.args:
+                    o = pf.fs_origin(tr.operand(s.args[0]))
+                    if any(classify_origin(x) == "anylayer" for x in o):
+                        n_any += 1
+    rep.floor("positive control: receivers classified as 'any layer' in %s" % w.overlay, n_any, 4)
     floors_key = "mutated-operand sites in %s" % w.overlay
     rep.floor(floors_key, n_sites, floors["sites"])
 
